@@ -139,8 +139,13 @@ def run(ctx):
     mk(base + "/imp/lib2", "Libb", {"m.yml": "Tb: Lib.Rl*\n"}, "imports:\n  - ../lib\n")
     mk(base + "/imp/main", "Top", {"m.yml": "Pm: !protocol\n  sequence:\n    a: Lib.Rl\n    b: Libb.Tb\n"},
        "imports:\n  - ../lib2\n  - ../lib\n" + OUT_CFG)
+    # many small model files (the order in which the files of a package are read must not reach the output)
+    many = {"f%02d.yml" % i: "M%d: !record\n  fields:\n    a: int32\n    b: %s\n\nA%d: M%d*\n" % (i, "M%d?" % (i - 1) if i else "string", i, i)
+            for i in range(14)}
+    many["p.yml"] = "Pmany: !protocol\n  sequence:\n" + "".join("    s%d: A%d\n" % (i, i) for i in range(14))
+    mk(base + "/many/main", "Many", many, OUT_CFG)
     jobs = []
-    for pkgname in ("evo", "inv", "big", "imp"):
+    for pkgname in ("evo", "inv", "big", "imp", "many"):
         for cmd in (["validate"], ["generate"]):
             jobs.append((pkgname, cmd))
     jobs.append(("big", ["validate", "-c", "bogusone=1", "-c", "bogustwo=2", "-c", "bogusthree=3"]))
@@ -159,7 +164,7 @@ def run(ctx):
     with ThreadPoolExecutor(max_workers=4) as ex:
         # jobs on the same package share an output dir: run per package sequentially
         results = []
-        for pk in ("evo", "inv", "big", "imp"):
+        for pk in ("evo", "inv", "big", "imp", "many"):
             results += list(map(one, [j for j in jobs if j[0] == pk]))
     for (pkgname, cmd), outs in results:
         distinct = {json.dumps(x, sort_keys=True) for x in outs}
@@ -175,7 +180,7 @@ def run(ctx):
                        {"package": pkgname, "command": cmd, "first": a[1][-600:], "other": b[1][-600:],
                         "files_differ": [k for k in a[2] if a[2].get(k) != b[2].get(k)][:10]})
     # idempotence: second generate leaves all mtimes untouched
-    for pkgname in ("evo", "big", "imp"):
+    for pkgname in ("evo", "big", "imp", "many"):
         d = os.path.join(base, pkgname, "main")
         o = os.path.join(base, pkgname, "out")
         rc, so, se = sh([ctx.yardl, "generate"], cwd=d, timeout=120)
